@@ -168,6 +168,9 @@ def hostile_requests():
         tok = base64.b64encode(user + b":pw")
         yield "auth-user", b"GET /u HTTP/1.1\r\nHost: h\r\nAuthorization: Basic " + tok + b"\r\n\r\n"
         yield "method", b"GE" + cb + b"T /m HTTP/1.1\r\nHost: h\r\n\r\n"
+    # credentials that are not base64 at all: bytes >= 0x80, stray characters, wrong padding
+    for raw in (b"dXNlcjpw\xe9", b"\xe9\xe9\xe9\xe9", b"dXNlcjpw=\xa0", b"@@@@", b"dXNl cjpw", b"dXNlcjp", b"\xff"):
+        yield "auth-raw", b"GET /u HTTP/1.1\r\nHost: h\r\nAuthorization: Basic " + raw + b"\r\n\r\n"
 
 
 HOSTILE_WORKERS = [("sync", {}), ("gthread", {"keepalive": 0}), ("async", {"keepalive": 2})]
